@@ -1,7 +1,7 @@
 /-! # Write side of C16: who writes into the memory of rows passed to `WriteRows`
 
 MIRROR of the row-writer wrappers of parquet-go and of two leaf writers, over an explicit memory of
-`[]Value` backing arrays:
+`[]Value` backing arrays (`Mem`) AND of `[]Row` backing arrays (`RMem`):
 
 * `filterRowWriter.WriteRows`      filter.go:52-86 (`asIs = true`: as it was before the repair, the
                                    deferred `clearValues` over `f.rows`; `asIs = false`: the repair,
@@ -9,22 +9,36 @@ MIRROR of the row-writer wrappers of parquet-go and of two leaf writers, over an
 * `transformRowWriter.WriteRows`   transform.go:108-141 (`makeRows` row.go:374-381, `clearRows` row.go:383-388)
 * `dedupeRowWriter.WriteRows`      dedupe.go:45-66 with `dedupe.deduplicate` dedupe.go:78-108
 * `multiRowWriter.WriteRows`       row.go:237-248 (binary; `MultiRowWriter(a, b, c)` = `multi a (multi b c)`)
-* `RowBuffer.WriteRows`            row_buffer.go:164-174 (`buf.values = append(buf.values, rows[i]...)`)
+* `RowBuffer.WriteRows`            row_buffer.go:164-174 (`buf.values = append(buf.values, rows[i]...)`,
+                                   `buf.rows = append(buf.rows, row)`)
 * a recording sink (`RowWriterFunc` that copies what it is given and fails at a chosen call)
 
-A `parquet.Row` is a Go slice header (`Hdr`: backing array, offset, length, capacity) and a
-`parquet.Value` is abstracted to a natural number (0 = the zero `Value{}` that `clearValues` writes).
+A `parquet.Row` is a Go slice header (`Hdr`: backing array, offset, length, capacity) over `Mem`, the
+`rows []Row` argument of `WriteRows` is a slice header (`RHdr`) over `RMem`, whose cells are `Hdr`s;
+a `parquet.Value` is abstracted to a natural number (0 = the zero `Value{}` that `clearValues` writes).
 What IS modelled: every store through a `[]Value` header (`clearValues`, `append` in place or with
-reallocation), the chunking loops (42 rows for the filter, `len(t.rows)` for the transform), the
-state the wrappers keep between calls (`f.rows`, `t.rows`, `d.lastRow`), error paths (including the
-shadowed `err` of filter.go:74 which makes the filter return `n, nil` after a failed write).
-What is NOT: the `[]Row` header arrays themselves (passed by value here: that the dedupe writer
-copies `rows` before reordering is invisible), byte arrays behind BYTE_ARRAY values, capacities
-chosen by Go's `append` growth (the model allocates exactly; only in-place-vs-realloc decisions of
-library-owned arrays depend on it, which is not observable in caller memory or in what is
-delivered downstream).
+reallocation) and every store through a `[]Row` header (`f.rows[i] = row`, `t.rows[n] = ...`,
+`d.rows = append(d.rows[:0], rows...)`, the rewrite of `rows` by `deduplicate`, the deferred loops that
+drop references, `clearRows`, `buf.rows = append(buf.rows, row)`), which `[]Row` slice each inner writer
+is handed (`f.rows[:i]`, `t.rows[:numRows]`, `d.rows[:n]`, the argument itself for `MultiRowWriter`),
+the chunking loops (42 rows for the filter, `len(t.rows)` for the transform), the state the wrappers
+keep between calls (`f.rows`, `t.rows`, `d.rows`, `d.lastRow`, `buf.values`, `buf.rows`), error paths
+(including the shadowed `err` of filter.go:74 which makes the filter return `n, nil` after a failed write).
+What is NOT: byte arrays behind BYTE_ARRAY values; capacities chosen by Go's `append` growth (the model
+allocates exactly; only in-place-vs-realloc decisions of library-owned arrays depend on it, which is not
+observable in caller memory or in what is delivered downstream); the scratch slices `d.uniq` / `d.dupe`
+of `dedupe` (private to one call of `deduplicate`, emptied by its deferred function: computed by value);
+a wrapper reads the rows of its argument (of one chunk, for the filter's inner calls) before the stores
+of that call instead of one by one (the argument and the arrays stored to are distinct arrays in every
+reachable state).
 
-SPEC side: `Keeps pv m m'` — every protected (`pv`) array holds the same cells in `m'` as in `m`.
+Each `[]Row` array carries a ghost tag: `true` for the arrays in which the library keeps rows it owns
+(`t.rows`, `buf.rows`: their cells point into library-owned `[]Value` arrays), `false` for arrays of
+references to rows of the caller (the caller's own `[]Row`, `f.rows`, `d.rows`). The tag is never read
+by the mirror; it states the typing discipline the frame proof rests on.
+
+SPEC side: `Keeps pv m m'` / `KeepsR pr rm rm'` — every protected (`pv` / `pr`) array holds the same
+cells in `m'` / `rm'` as in `m` / `rm`.
 -/
 namespace PqModel.WriteOwn
 
@@ -44,7 +58,7 @@ def Hdr.nil : Hdr := ⟨0, 0, 0, 0⟩
 /-- the memory: backing arrays of `[]Value` slices -/
 abbrev Mem := List (List Val)
 
-def writeAt (l : List Val) (i : Nat) (xs : List Val) : List Val :=
+def writeAt {α : Type} (l : List α) (i : Nat) (xs : List α) : List α :=
   l.take i ++ xs ++ l.drop (i + xs.length)
 
 /-- the values a row header shows -/
@@ -61,6 +75,43 @@ def append (m : Mem) (h : Hdr) (xs : List Val) : Mem × Hdr :=
     (store m h.arr (h.off + h.len) xs, { h with len := h.len + xs.length })
   else
     (m ++ [row m h ++ xs], ⟨m.length, 0, h.len + xs.length, h.len + xs.length⟩)
+
+/-! ## `[]Row` arrays -/
+
+/-- a `[]Row` slice header -/
+structure RHdr where
+  arr : Nat
+  off : Nat
+  len : Nat
+  cap : Nat
+deriving DecidableEq, Repr, Inhabited
+
+/-- backing arrays of `[]Row` slices, each with its ghost tag (`true`: rows the library owns) -/
+abbrev RMem := List (Bool × List Hdr)
+
+/-- the nil `[]Row` of a field that holds references (`d.rows`): row array 0 is a reserved dummy
+    tagged `false` -/
+def RHdr.nil : RHdr := ⟨0, 0, 0, 0⟩
+
+/-- the nil `[]Row` of a field that holds owned rows (`t.rows`, `buf.rows`): row array 1 is a
+    reserved dummy tagged `true` -/
+def RHdr.nilOwned : RHdr := ⟨1, 0, 0, 0⟩
+
+def cellsOf (rm : RMem) (a : Nat) : List Hdr := (rm.getD a (false, [])).2
+def tagOf (rm : RMem) (a : Nat) : Bool := (rm.getD a (false, [])).1
+
+/-- the rows a `[]Row` header shows -/
+def rowsOf (rm : RMem) (h : RHdr) : List Hdr := ((cellsOf rm h.arr).drop h.off).take h.len
+
+def storeR (rm : RMem) (a i : Nat) (hs : List Hdr) : RMem :=
+  rm.set a (tagOf rm a, writeAt (cellsOf rm a) i hs)
+
+/-- `append(h, hs...)` on a `[]Row`; a reallocation makes an array with the ghost tag `tag` -/
+def appendR (rm : RMem) (tag : Bool) (h : RHdr) (hs : List Hdr) : RMem × RHdr :=
+  if h.len + hs.length ≤ h.cap then
+    (storeR rm h.arr (h.off + h.len) hs, { h with len := h.len + hs.length })
+  else
+    (rm ++ [(tag, rowsOf rm h ++ hs)], ⟨rm.length, 0, h.len + hs.length, h.len + hs.length⟩)
 
 /-! ## the frame: protected arrays keep their cells -/
 
@@ -99,6 +150,31 @@ theorem append_keeps {pv : Nat → Bool} (m : Mem) (h : Hdr) (xs : List Val) (hb
       | false => rfl
       | true => exact absurd (hb _ hp) (Nat.lt_irrefl _)
 
+/-- the `[]Row` memory evolves: arrays are only added, ghost tags never change, protected arrays keep
+    their cells (and tag) -/
+def KeepsR (pr : Nat → Bool) (rm rm' : RMem) : Prop :=
+  rm.length ≤ rm'.length ∧ (∀ a, a < rm.length → tagOf rm' a = tagOf rm a) ∧
+    ∀ a, pr a = true → rm'[a]? = rm[a]?
+
+def BoundedR (pr : Nat → Bool) (rm : RMem) : Prop := ∀ a, pr a = true → a < rm.length
+
+/-- typing discipline of the `[]Row` arrays: an array the library uses for rows it owns holds
+    headers of unprotected `[]Value` arrays only -/
+def SlotsOk (pv : Nat → Bool) (rm : RMem) : Prop :=
+  ∀ a, tagOf rm a = true → ∀ h ∈ cellsOf rm a, pv h.arr = false
+
+theorem KeepsR.refl (pr : Nat → Bool) (rm : RMem) : KeepsR pr rm rm :=
+  ⟨Nat.le_refl _, fun _ _ => rfl, fun _ _ => rfl⟩
+
+theorem KeepsR.trans {pr : Nat → Bool} {a b c : RMem} (h1 : KeepsR pr a b) (h2 : KeepsR pr b c) : KeepsR pr a c :=
+  ⟨Nat.le_trans h1.1 h2.1,
+   fun x hx => (h2.2.1 x (Nat.lt_of_lt_of_le hx h1.1)).trans (h1.2.1 x hx),
+   fun x hx => (h2.2.2 x hx).trans (h1.2.2 x hx)⟩
+
+theorem BoundedR.mono {pr : Nat → Bool} {rm rm' : RMem} (hb : BoundedR pr rm) (hk : KeepsR pr rm rm') :
+    BoundedR pr rm' :=
+  fun a ha => Nat.lt_of_lt_of_le (hb a ha) hk.1
+
 /-! ## behaviours of the caller-supplied functions -/
 
 /-- what a transform function does with `(dst, src)`: return `dst` unchanged (the row is skipped),
@@ -136,13 +212,13 @@ def Shape.repaired : Shape → Bool
   | .multi a b => a.repaired && b.repaired
 
 /-- fields of one writer object.
-    `held`: references to rows of the caller (`filterRowWriter.rows`);
-    `slots`: `[]Row` whose rows the object owns (`transformRowWriter.rows`, `RowBuffer.rows`);
+    `held`: a `[]Row` of references to rows of the caller (`filterRowWriter.rows[:]`, `dedupeRowWriter.rows`);
+    `slots`: a `[]Row` whose rows the object owns (`transformRowWriter.rows`, `RowBuffer.rows`);
     `hdr`: a `[]Value` the object owns (`dedupe.lastRow`, `RowBuffer.values`);
     `calls`, `got`: the recording sink -/
 structure NodeSt where
-  held : List Hdr := []
-  slots : List Hdr := []
+  held : RHdr := RHdr.nil
+  slots : RHdr := RHdr.nilOwned
   hdr : Hdr := Hdr.nil
   calls : Nat := 0
   got : List (List (List Val)) := []
@@ -155,8 +231,11 @@ def St.node (st : St) (id : Nat) : NodeSt := st.getD id {}
 structure Res where
   st : St
   m : Mem
+  rm : RMem
   n : Nat
   err : Bool
+
+abbrev Writer := St → Mem → RMem → RHdr → Res
 
 /-- chunks of at most k elements (fuel = length of the list) -/
 def chunks {α} (k : Nat) : Nat → List α → List (List α)
@@ -164,139 +243,174 @@ def chunks {α} (k : Nat) : Nat → List α → List (List α)
   | _, [] => []
   | fuel + 1, l => l.take (max k 1) :: chunks k fuel (l.drop (max k 1))
 
-/-- `f.rows[i] = row` for the selected rows of one chunk: the prefix of the 42 slots is overwritten -/
-def overwritePrefix (slots sel : List Hdr) : List Hdr := sel ++ slots.drop sel.length
-
-/-- filter.go:61-83, the loop over chunks of `len(f.rows)` = 42 rows -/
-def filterChunks (B : Beh) (id k : Nat) (inner : St → Mem → List Hdr → Res) :
-    List (List Hdr) → St → Mem → Nat → St × Mem × Nat
-  | [], st, m, n => (st, m, n)
-  | c :: cs, st, m, n =>
-    let sel := c.filter fun h => B.pred k (row m h)
-    let st := st.set id { st.node id with held := overwritePrefix (st.node id).held sel }
-    if sel.length > 0 then
-      let r := inner st m sel
-      -- filter.go:74-77: `_, err := ...; if err != nil { break }` — the inner `err` shadows the result
-      if r.err then (r.st, r.m, n) else filterChunks B id k inner cs r.st r.m (n + c.length)
-    else filterChunks B id k inner cs st m (n + c.length)
-
 def filterRowBufferSize : Nat := 42
 
+/-- filter.go:61-83, the loop over chunks of `len(f.rows)` = 42 rows. `acc = (st, m, rm, n)` -/
+def filterChunks (B : Beh) (id k : Nat) (inner : Writer) :
+    List (List Hdr) → St → Mem → RMem → Nat → St × Mem × RMem × Nat
+  | [], st, m, rm, n => (st, m, rm, n)
+  | c :: cs, st, m, rm, n =>
+    let sel := c.filter fun h => B.pred k (row m h)
+    let held := (st.node id).held
+    -- `f.rows[i] = row; i++` for the selected rows: the prefix of the 42 cells is overwritten
+    let rm1 := storeR rm held.arr held.off sel
+    if sel.length > 0 then
+      -- `f.writer.WriteRows(f.rows[:i])`
+      let r := inner st m rm1 ⟨held.arr, held.off, sel.length, held.cap⟩
+      -- filter.go:74-77: `_, err := ...; if err != nil { break }` — the inner `err` shadows the result
+      if r.err then (r.st, r.m, r.rm, n) else filterChunks B id k inner cs r.st r.m r.rm (n + c.length)
+    else filterChunks B id k inner cs st m rm1 (n + c.length)
+
+/-- `rows [defaultRowBufferSize]Row` is part of the filter struct: an array of 42 nil rows exists from
+    the construction of the object on (allocated here at the first call) -/
+def filterInit (id : Nat) (st : St) (rm : RMem) : St × RMem :=
+  if (st.node id).held.cap = filterRowBufferSize then (st, rm)
+  else (st.set id { st.node id with held := ⟨rm.length, 0, filterRowBufferSize, filterRowBufferSize⟩ },
+        rm ++ [(false, List.replicate filterRowBufferSize Hdr.nil)])
+
 /-- filter.go:52-86 -/
-def filterWrite (B : Beh) (asIs : Bool) (id k : Nat) (inner : St → Mem → List Hdr → Res)
-    (st : St) (m : Mem) (rows : List Hdr) : Res :=
-  -- `rows [defaultRowBufferSize]Row` is part of the struct: 42 nil rows before the first call
-  let st := if (st.node id).held.length = filterRowBufferSize then st
-            else st.set id { st.node id with held := List.replicate filterRowBufferSize Hdr.nil }
-  let r := filterChunks B id k inner (chunks filterRowBufferSize rows.length rows) st m 0
+def filterWrite (B : Beh) (asIs : Bool) (id k : Nat) (inner : Writer)
+    (st : St) (m : Mem) (rm : RMem) (rows : RHdr) : Res :=
+  let st0 := (filterInit id st rm).1
+  let rm0 := (filterInit id st rm).2
+  let rs := rowsOf rm0 rows
+  let r := filterChunks B id k inner (chunks filterRowBufferSize rs.length rs) st0 m rm0 0
   let st1 := r.1
   let m1 := r.2.1
+  let rm1 := r.2.2.1
+  let held := (st1.node id).held
   if asIs then
     -- before the repair: `clearValues(clear[i])` for all 42 entries, which are the caller's rows
-    ⟨st1, (st1.node id).held.foldl clearValues m1, r.2.2, false⟩
+    ⟨st1, (rowsOf rm1 held).foldl clearValues m1, rm1, r.2.2.2, false⟩
   else
-    ⟨st1.set id { st1.node id with held := List.replicate filterRowBufferSize Hdr.nil }, m1, r.2.2, false⟩
+    -- `for i := range f.rows { f.rows[i] = nil }`
+    ⟨st1, m1, storeR rm1 held.arr held.off (List.replicate held.len Hdr.nil), r.2.2.2, false⟩
 
 /-- `makeRows(n)` row.go:374-381: n rows of capacity 1 carved out of one array of n values -/
-def makeRows (m : Mem) (n : Nat) : Mem × List Hdr :=
-  (m ++ [List.replicate n 0], (List.range n).map fun i => ⟨m.length, i, 0, 1⟩)
+def makeRows (m : Mem) (rm : RMem) (n : Nat) : Mem × RMem × RHdr :=
+  (m ++ [List.replicate n 0], rm ++ [(true, (List.range n).map fun i => ⟨m.length, i, 0, 1⟩)],
+   ⟨rm.length, 0, n, n⟩)
 
-/-- one step of the loop of transform.go:128-136. `acc = (m, slots, numRows, failed)` -/
-def transformStep (B : Beh) (k : Nat) (acc : Mem × List Hdr × Nat × Bool) (src : Hdr) :
-    Mem × List Hdr × Nat × Bool :=
-  let (m, slots, num, failed) := acc
+/-- `t.rows[i]` -/
+def slotAt (rm : RMem) (sl : RHdr) (i : Nat) : Hdr := (cellsOf rm sl.arr).getD (sl.off + i) Hdr.nil
+
+/-- one step of the loop of transform.go:128-136 over `t.rows` = `sl`. `acc = (m, rm, numRows, failed)` -/
+def transformStep (B : Beh) (k : Nat) (sl : RHdr) (acc : Mem × RMem × Nat × Bool) (src : Hdr) :
+    Mem × RMem × Nat × Bool :=
+  let (m, rm, num, failed) := acc
   if failed then acc else
-  let dst := { slots.getD num Hdr.nil with len := 0 }
+  let dst := { slotAt rm sl num with len := 0 }
   match B.tr k (row m src) with
-  | .fail => (m, slots, num, true)
-  | .skip => (m, slots.set num dst, num, false)
+  | .fail => (m, rm, num, true)
+  | .skip => (m, storeR rm sl.arr (sl.off + num) [dst], num, false)
   | .copy =>
     let (m1, h) := append m dst (row m src)
-    (m1, slots.set num h, if h.len ≠ 0 then num + 1 else num, false)
+    (m1, storeR rm sl.arr (sl.off + num) [h], if h.len ≠ 0 then num + 1 else num, false)
   | .twice =>
     let (m1, h1) := append m dst (row m src)
     let (m2, h2) := append m1 h1 (row m1 src)
-    (m2, slots.set num h2, if h2.len ≠ 0 then num + 1 else num, false)
+    (m2, storeR rm sl.arr (sl.off + num) [h2], if h2.len ≠ 0 then num + 1 else num, false)
 
-/-- `clearRows(rows[:num])` row.go:383-388 on the first `num` slots -/
-def clearSlots : Nat → Nat → Mem → List Hdr → Mem × List Hdr
-  | 0, _, m, slots => (m, slots)
-  | fuel + 1, i, m, slots =>
-    let h := slots.getD i Hdr.nil
-    clearSlots fuel (i + 1) (clearValues m h) (slots.set i { h with len := 0 })
+/-- `clearRows(t.rows[:num])` row.go:383-388 on the first `num` cells of `sl` -/
+def clearSlots (sl : RHdr) : Nat → Nat → Mem → RMem → Mem × RMem
+  | 0, _, m, rm => (m, rm)
+  | fuel + 1, i, m, rm =>
+    let h := slotAt rm sl i
+    clearSlots sl fuel (i + 1) (clearValues m h) (storeR rm sl.arr (sl.off + i) [{ h with len := 0 }])
 
 /-- transform.go:114-120, the loop over chunks of `len(t.rows)` rows, each through `writeRows`
     (transform.go:124-141) -/
-def transformChunks (B : Beh) (id k : Nat) (inner : St → Mem → List Hdr → Res) :
-    List (List Hdr) → St → Mem → Nat → Res
-  | [], st, m, n => ⟨st, m, n, false⟩
-  | c :: cs, st, m, n =>
-    let (m1, slots1, num, failed) := c.foldl (transformStep B k) (m, (st.node id).slots, 0, false)
+def transformChunks (B : Beh) (id k : Nat) (inner : Writer) :
+    List (List Hdr) → St → Mem → RMem → Nat → Res
+  | [], st, m, rm, n => ⟨st, m, rm, n, false⟩
+  | c :: cs, st, m, rm, n =>
+    let sl := (st.node id).slots
+    let (m1, rm1, num, failed) := c.foldl (transformStep B k sl) (m, rm, 0, false)
     if failed then
-      let (m2, slots2) := clearSlots num 0 m1 slots1
-      ⟨st.set id { st.node id with slots := slots2 }, m2, n, true⟩
+      ⟨st, (clearSlots sl num 0 m1 rm1).1, (clearSlots sl num 0 m1 rm1).2, n, true⟩
     else
-      let st1 := st.set id { st.node id with slots := slots1 }
-      let r := inner st1 m1 (slots1.take num)
-      let (m2, slots2) := clearSlots num 0 r.m ((r.st.node id).slots)
-      let st2 := r.st.set id { r.st.node id with slots := slots2 }
-      if r.err then ⟨st2, m2, n, true⟩ else transformChunks B id k inner cs st2 m2 (n + c.length)
+      -- `t.writer.WriteRows(t.rows[:numRows])`
+      let r := inner st m1 rm1 ⟨sl.arr, sl.off, num, sl.cap⟩
+      let c2 := clearSlots ((r.st.node id).slots) num 0 r.m r.rm
+      if r.err then ⟨r.st, c2.1, c2.2, n, true⟩ else transformChunks B id k inner cs r.st c2.1 c2.2 (n + c.length)
+
+/-- `if len(t.rows) == 0 { t.rows = makeRows(len(rows)) }` transform.go:109-111 -/
+def transformInit (id : Nat) (st : St) (m : Mem) (rm : RMem) (n : Nat) : St × Mem × RMem :=
+  if (st.node id).slots.len = 0 then
+    (st.set id { st.node id with slots := (makeRows m rm n).2.2 }, (makeRows m rm n).1, (makeRows m rm n).2.1)
+  else (st, m, rm)
 
 /-- transform.go:108-122 -/
-def transformWrite (B : Beh) (id k : Nat) (inner : St → Mem → List Hdr → Res)
-    (st : St) (m : Mem) (rows : List Hdr) : Res :=
-  let (m0, st0) :=
-    if (st.node id).slots.length = 0 then
-      let (m', slots) := makeRows m rows.length
-      (m', st.set id { st.node id with slots := slots })
-    else (m, st)
-  transformChunks B id k inner (chunks (st0.node id).slots.length rows.length rows) st0 m0 0
+def transformWrite (B : Beh) (id k : Nat) (inner : Writer)
+    (st : St) (m : Mem) (rm : RMem) (rows : RHdr) : Res :=
+  let rs := rowsOf rm rows
+  let i := transformInit id st m rm rs.length
+  transformChunks B id k inner (chunks (i.1.node id).slots.len rs.length rs) i.1 i.2.1 i.2.2 0
 
-/-- one step of the loop of dedupe.go:92-99. `acc = (lastRow, uniq)` (the dupes are dropped: they are
-    moved behind the `n` unique rows of a `[]Row` the model does not keep) -/
-def dedupeStep (B : Beh) (k : Nat) (m : Mem) (acc : Hdr × List Hdr) (r : Hdr) : Hdr × List Hdr :=
-  if acc.1.len ≠ 0 && B.same k (row m r) (row m acc.1) then acc else (r, acc.2 ++ [r])
+/-- one step of the loop of dedupe.go:92-99. `acc = (lastRow, d.uniq, d.dupe)` -/
+def dedupeStep (B : Beh) (k : Nat) (m : Mem) (acc : Hdr × List Hdr × List Hdr) (r : Hdr) :
+    Hdr × List Hdr × List Hdr :=
+  if acc.1.len ≠ 0 && B.same k (row m r) (row m acc.1) then (acc.1, acc.2.1, acc.2.2 ++ [r])
+  else (r, acc.2.1 ++ [r], acc.2.2)
 
-/-- dedupe.go:45-66 + 78-108 -/
-def dedupeWrite (B : Beh) (id k : Nat) (inner : St → Mem → List Hdr → Res)
-    (st : St) (m : Mem) (rows : List Hdr) : Res :=
-  let last := (st.node id).hdr
-  let (lastRow, uniq) := rows.foldl (dedupeStep B k m) (last, [])
-  -- dedupe.go:106 `d.lastRow = append(d.lastRow[:0], lastRow...)`
+/-- `d.deduplicate(rows, compare)` dedupe.go:78-108 on the `[]Row` `rows`: the unique rows are moved to
+    the front of `rows` IN PLACE (`rows = append(append(rows[:0], d.uniq...), d.dupe...)`), `d.lastRow`
+    is overwritten or reallocated. Returns the memories, the new `d.lastRow` and `len(d.uniq)`. -/
+def deduplicate (B : Beh) (k : Nat) (m : Mem) (rm : RMem) (last : Hdr) (rows : RHdr) :
+    Mem × RMem × Hdr × Nat :=
+  let (lastRow, uniq, dupe) := (rowsOf rm rows).foldl (dedupeStep B k m) (last, [], [])
+  let rm1 := storeR rm rows.arr rows.off (uniq ++ dupe)
   let (m1, last1) := append m { last with len := 0 } (row m lastRow)
-  let st1 := st.set id { st.node id with hdr := last1 }
-  if uniq.length > 0 then
-    let r := inner st1 m1 uniq
-    if r.err then r else ⟨r.st, r.m, rows.length, false⟩
-  else ⟨st1, m1, rows.length, false⟩
+  (m1, rm1, last1, uniq.length)
 
-/-- row_buffer.go:164-174 -/
-def rowbufStep (acc : Mem × Hdr × List Hdr) (r : Hdr) : Mem × Hdr × List Hdr :=
-  let (m, vals, slots) := acc
+/-- `d.rows[:0]` -/
+def RHdr.empty (h : RHdr) : RHdr := { h with len := 0 }
+
+/-- dedupe.go:45-66 -/
+def dedupeWrite (B : Beh) (id k : Nat) (inner : Writer)
+    (st : St) (m : Mem) (rm : RMem) (rows : RHdr) : Res :=
+  -- `d.rows = append(d.rows[:0], rows...)`
+  let ar := appendR rm false (st.node id).held.empty (rowsOf rm rows)
+  let dr := ar.2
+  let dd := deduplicate B k m ar.1 (st.node id).hdr dr
+  let st1 := st.set id { st.node id with hdr := dd.2.2.1, held := dr }
+  if dd.2.2.2 > 0 then
+    -- `d.writer.WriteRows(d.rows[:n])`
+    let r := inner st1 dd.1 dd.2.1 ⟨dr.arr, dr.off, dd.2.2.2, dr.cap⟩
+    -- deferred: `for i := range d.rows { d.rows[i] = Row{} }`
+    let dr' := (r.st.node id).held
+    let rm2 := storeR r.rm dr'.arr dr'.off (List.replicate dr'.len Hdr.nil)
+    if r.err then ⟨r.st, r.m, rm2, r.n, true⟩ else ⟨r.st, r.m, rm2, rows.len, false⟩
+  else ⟨st1, dd.1, storeR dd.2.1 dr.arr dr.off (List.replicate dr.len Hdr.nil), rows.len, false⟩
+
+/-- row_buffer.go:164-174. `acc = (m, rm, buf.values, buf.rows)` -/
+def rowbufStep (acc : Mem × RMem × Hdr × RHdr) (r : Hdr) : Mem × RMem × Hdr × RHdr :=
+  let (m, rm, vals, slots) := acc
   let (m1, vals1) := append m vals (row m r)
-  (m1, vals1, slots ++ [⟨vals1.arr, vals1.off + vals.len, r.len, r.len⟩])
+  let (rm1, slots1) := appendR rm true slots [⟨vals1.arr, vals1.off + vals.len, r.len, r.len⟩]
+  (m1, rm1, vals1, slots1)
 
-def rowbufWrite (id : Nat) (st : St) (m : Mem) (rows : List Hdr) : Res :=
-  let (m1, vals1, slots1) := rows.foldl rowbufStep (m, (st.node id).hdr, (st.node id).slots)
-  ⟨st.set id { st.node id with hdr := vals1, slots := slots1 }, m1, rows.length, false⟩
+def rowbufWrite (id : Nat) (st : St) (m : Mem) (rm : RMem) (rows : RHdr) : Res :=
+  let (m1, rm1, vals1, slots1) := (rowsOf rm rows).foldl rowbufStep (m, rm, (st.node id).hdr, (st.node id).slots)
+  ⟨st.set id { st.node id with hdr := vals1, slots := slots1 }, m1, rm1, rows.len, false⟩
 
 /-- the recording sink: call number `failAt` (0-based) fails without looking at the rows -/
-def sinkWrite (id failAt : Nat) (st : St) (m : Mem) (rows : List Hdr) : Res :=
+def sinkWrite (id failAt : Nat) (st : St) (m : Mem) (rm : RMem) (rows : RHdr) : Res :=
   let ns := st.node id
-  if ns.calls = failAt then ⟨st.set id { ns with calls := ns.calls + 1 }, m, 0, true⟩
-  else ⟨st.set id { ns with calls := ns.calls + 1, got := ns.got ++ [rows.map (row m)] }, m, rows.length, false⟩
+  if ns.calls = failAt then ⟨st.set id { ns with calls := ns.calls + 1 }, m, rm, 0, true⟩
+  else ⟨st.set id { ns with calls := ns.calls + 1, got := ns.got ++ [(rowsOf rm rows).map (row m)] }, m, rm, rows.len, false⟩
 
-/-- row.go:237-248 for two writers -/
-def multiWrite (wa wb : St → Mem → List Hdr → Res) (st : St) (m : Mem) (rows : List Hdr) : Res :=
-  let r1 := wa st m rows
+/-- row.go:237-248 for two writers: both are handed the argument itself -/
+def multiWrite (wa wb : Writer) (st : St) (m : Mem) (rm : RMem) (rows : RHdr) : Res :=
+  let r1 := wa st m rm rows
   if r1.err then r1 else
-  if r1.n ≠ rows.length then { r1 with err := true } else
-  let r2 := wb r1.st r1.m rows
+  if r1.n ≠ rows.len then { r1 with err := true } else
+  let r2 := wb r1.st r1.m r1.rm rows
   if r2.err then r2 else
-  if r2.n ≠ rows.length then { r2 with err := true } else r2
+  if r2.n ≠ rows.len then { r2 with err := true } else r2
 
 /-- `WriteRows(rows)` on the writer object of shape `sh` -/
-def write (B : Beh) : Shape → St → Mem → List Hdr → Res
+def write (B : Beh) : Shape → Writer
   | .sink id failAt => sinkWrite id failAt
   | .rowbuf id => rowbufWrite id
   | .filter asIs id k inner => filterWrite B asIs id k (write B inner)
@@ -304,46 +418,82 @@ def write (B : Beh) : Shape → St → Mem → List Hdr → Res
   | .dedupe id k inner => dedupeWrite B id k (write B inner)
   | .multi a b => multiWrite (write B a) (write B b)
 
-/-- a history of `WriteRows` calls on one writer object; returns the final state, memory and the
+structure RunRes where
+  st : St
+  m : Mem
+  rm : RMem
+  rets : List (Nat × Bool)
+
+/-- a history of `WriteRows` calls on one writer object; returns the final state, memories and the
     `(n, err)` of every call -/
-def run (B : Beh) (sh : Shape) : List (List Hdr) → St → Mem → St × Mem × List (Nat × Bool)
-  | [], st, m => (st, m, [])
-  | b :: bs, st, m =>
-    let r := write B sh st m b
-    let rest := run B sh bs r.st r.m
-    (rest.1, rest.2.1, (r.n, r.err) :: rest.2.2)
+def run (B : Beh) (sh : Shape) : List RHdr → St → Mem → RMem → RunRes
+  | [], st, m, rm => ⟨st, m, rm, []⟩
+  | b :: bs, st, m, rm =>
+    let r := write B sh st m rm b
+    let rest := run B sh bs r.st r.m r.rm
+    { rest with rets := (r.n, r.err) :: rest.rets }
 
 /-! ## invariant of the state: what the writer objects own is not protected -/
 
-def NodeOwn (pv : Nat → Bool) (ns : NodeSt) : Prop :=
-  (∀ h ∈ ns.slots, pv h.arr = false) ∧ pv ns.hdr.arr = false
+/-- the `[]Row` arrays an object keeps are its own (not protected) and of the right kind: `held` is an
+    existing array of references, `slots` an array of owned rows; its `[]Value` is not protected -/
+def NodeOwn (pv pr : Nat → Bool) (rm : RMem) (ns : NodeSt) : Prop :=
+  (pr ns.held.arr = false ∧ ns.held.arr < rm.length ∧ tagOf rm ns.held.arr = false) ∧
+  (pr ns.slots.arr = false ∧ tagOf rm ns.slots.arr = true) ∧ pv ns.hdr.arr = false
 
-/-- every owned header stored in any writer object points to an unprotected array, and so does the
-    nil header (array 0 is the reserved dummy) -/
-def Own (pv : Nat → Bool) (st : St) : Prop := pv 0 = false ∧ ∀ ns ∈ st, NodeOwn pv ns
+/-- every header stored in any writer object satisfies `NodeOwn`, and so do the nil headers (the
+    reserved dummy arrays: `[]Value` array 0, `[]Row` arrays 0 and 1) -/
+def Own (pv pr : Nat → Bool) (st : St) (rm : RMem) : Prop :=
+  NodeOwn pv pr rm {} ∧ ∀ ns ∈ st, NodeOwn pv pr rm ns
 
-theorem NodeOwn.default {pv : Nat → Bool} (h0 : pv 0 = false) : NodeOwn pv {} := by
-  refine ⟨?_, h0⟩
-  intro h hh
-  cases hh
+theorem Own.pv0 {pv pr : Nat → Bool} {st : St} {rm : RMem} (ho : Own pv pr st rm) : pv 0 = false := ho.1.2.2
 
-theorem Own.node {pv : Nat → Bool} {st : St} (ho : Own pv st) (id : Nat) : NodeOwn pv (st.node id) := by
+theorem Own.node {pv pr : Nat → Bool} {st : St} {rm : RMem} (ho : Own pv pr st rm) (id : Nat) :
+    NodeOwn pv pr rm (st.node id) := by
   unfold St.node
   rw [List.getD_eq_getElem?_getD]
   cases h : st[id]? with
-  | none => exact NodeOwn.default ho.1
+  | none => exact ho.1
   | some ns => exact ho.2 ns (List.mem_of_getElem? h)
 
-theorem Own.set {pv : Nat → Bool} {st : St} (ho : Own pv st) (id : Nat) {ns : NodeSt} (hn : NodeOwn pv ns) :
-    Own pv (st.set id ns) := by
+theorem Own.set {pv pr : Nat → Bool} {st : St} {rm : RMem} (ho : Own pv pr st rm) (id : Nat) {ns : NodeSt}
+    (hn : NodeOwn pv pr rm ns) : Own pv pr (st.set id ns) rm := by
   refine ⟨ho.1, fun x hx => ?_⟩
   rcases List.mem_or_eq_of_mem_set hx with h | h
   · exact ho.2 x h
   · exact h ▸ hn
 
+theorem NodeOwn.mono {pv pr : Nat → Bool} {rm rm' : RMem} {ns : NodeSt} (hn : NodeOwn pv pr rm ns)
+    (hk : KeepsR pr rm rm') : NodeOwn pv pr rm' ns := by
+  obtain ⟨⟨h1, h2, h3⟩, ⟨h4, h5⟩, h6⟩ := hn
+  refine ⟨⟨h1, Nat.lt_of_lt_of_le h2 hk.1, (hk.2.1 _ h2).trans h3⟩, ⟨h4, ?_⟩, h6⟩
+  have hlt : ns.slots.arr < rm.length := by
+    apply Classical.byContradiction
+    intro hge
+    have : tagOf rm ns.slots.arr = false := by
+      unfold tagOf
+      rw [List.getD_eq_getElem?_getD, List.getElem?_eq_none (Nat.le_of_not_lt hge)]
+      rfl
+    rw [this] at h5
+    cases h5
+  exact (hk.2.1 _ hlt).trans h5
+
+theorem Own.mono {pv pr : Nat → Bool} {st : St} {rm rm' : RMem} (ho : Own pv pr st rm) (hk : KeepsR pr rm rm') :
+    Own pv pr st rm' :=
+  ⟨ho.1.mono hk, fun ns h => (ho.2 ns h).mono hk⟩
+
+/-- the hypotheses under which a writer runs: the ownership invariant, the typing of the `[]Row`
+    arrays, protected arrays exist -/
+structure Good (pv pr : Nat → Bool) (st : St) (m : Mem) (rm : RMem) : Prop where
+  own : Own pv pr st rm
+  slots : SlotsOk pv rm
+  bm : Bounded pv m
+  br : BoundedR pr rm
+
 /-- what an inner writer has to guarantee for the frame of a wrapper around it -/
-def Safe (pv : Nat → Bool) (w : St → Mem → List Hdr → Res) : Prop :=
-  ∀ st m rows, Own pv st → Bounded pv m →
-    Keeps pv m (w st m rows).m ∧ Own pv (w st m rows).st
+def Safe (pv pr : Nat → Bool) (w : Writer) : Prop :=
+  ∀ st m rm rows, Good pv pr st m rm →
+    Keeps pv m (w st m rm rows).m ∧ KeepsR pr rm (w st m rm rows).rm ∧
+      Good pv pr (w st m rm rows).st (w st m rm rows).m (w st m rm rows).rm
 
 end PqModel.WriteOwn
